@@ -21,7 +21,7 @@ Print Assumptions C11_sweep_unfolds.
 Theorem C11_close_by_kind e sid oid ob : nth_error (objs e) oid = Some ob -> o_sid ob = sid ->
   snd (close_one e sid oid) =
   match o_kind ob with
-  | KRRReq => match o_fut ob with FPending => [XFut oid false] | _ => [] end
+  | KRRReq => match o_fut ob with FPending => [XFut oid false [] []] | _ => [] end
   | KRRResp => match o_fut ob with FPending => [XAppFutCancel oid] | _ => [] end
   | KRSReq => if o_has_sub ob then [XCb oid SError] else []
   | KRSResp => [XPub oid PCancelOp]
@@ -41,7 +41,7 @@ Proof. exact close_sweep_complete. Qed.
 Print Assumptions C11_sweep_complete.
 Theorem C11_sweep_per_object : forall ob oid, close_effects ob oid =
   match o_kind ob with
-  | KRRReq => match o_fut ob with FPending => [XFut oid false] | _ => [] end
+  | KRRReq => match o_fut ob with FPending => [XFut oid false [] []] | _ => [] end
   | KRRResp => match o_fut ob with FPending => [XAppFutCancel oid] | _ => [] end
   | KRSReq => if o_has_sub ob then [XCb oid SError] else []
   | KRSResp => [XPub oid PCancelOp]
